@@ -42,7 +42,10 @@
 (*                   selector: the reply depends on earlier read-only requests              *)
 (*   PycacheListed   PYG loading leaves __pycache__ in the served tree, later listed        *)
 (* Sites that are NOT defects: NotFound (FileNotFound -> error reply), MailboxOSError       *)
-(* (OSError family from the mailbox library -> logged, error reply).                        *)
+(* (OSError family from the mailbox library -> logged, error reply), WapSubprocess (wap.py  *)
+(* converts text through an in-memory file that has no fileno() for a subprocess handler:   *)
+(* io.UnsupportedOperation, an OSError, is logged and an error page follows the 200 header; *)
+(* the reply stays well-formed - unless ArgsIndex turns it into IndexError).                *)
 EXTENDS Naturals, Integers, Sequences, FiniteSets
 LOCAL T == INSTANCE Text
 G == INSTANCE Grammar
@@ -406,6 +409,12 @@ ErrorPlan(fam, method, msg, io) ==
         m  == IF st \in {"CrlfInStatus", "CrInErrorLine"} /\ st \notin Defects THEN Sanitize(msg) ELSE msg
     IN Wrs("handler", ErrorChunks(fam, method, m, io))
 
+\* nw > 0: the measured number of write() calls of this reply (C20): pad / cut the plan to it
+Resize(plan, nw) ==
+    IF nw = 0 \/ Len(plan) = 0 \/ nw = Len(plan) THEN plan
+    ELSE IF nw < Len(plan) THEN SubSeq(plan, 1, nw)
+    ELSE plan \o Repeat(Wr(plan[1].r, Blob(1)), nw - Len(plan))
+
 \* the writes of a successful response; nw > 0: the measured number of write() calls (C20)
 OkPlan(fam, method, mode, kd, n, sized, gz, nw, sub) ==
     LET body == Content(kd, n)
@@ -537,8 +546,7 @@ Lookup ==                                       \* gethandler(): first statement
        ELSE LET r == Resolve(sel, rq.hl, fs)
                 kS == KindIn(fs, PathOf(r.s))
                 art == IF kS = "cache" THEN "ArtefactFetchable"
-                       ELSE IF kS = "pycache" \/ (kS \in DirKinds /\ \E p \in Children(fs, PathOf(r.s)) : fs[p].k = "pycache")
-                            THEN "PycacheListed" ELSE "none"
+                       ELSE IF kS = "pycache" THEN "PycacheListed" ELSE "none"
             IN
             IF r.h = "none"
             THEN /\ exc' = NotFoundExc(r.s) /\ pc' = "catchP" /\ SetSite(IF art # "none" THEN art ELSE "NotFound")
@@ -565,7 +573,12 @@ Entry ==                                        \* getentry(), prepare(): still 
        ELSE /\ kind' = IF mode = "info" THEN "info" ELSE e.kind
             /\ todo' = OkPlan(fam, m, mode, e.kind, e.n, hname \in SizedHandlers, hname = "CompressedFileHandler", rq.nw,
                               hname \in {"ExecHandler", "CompressedFileHandler"} /\ ~rq.tls)
-            /\ SetSite(IF fam = "GP" /\ mode # "info" /\ hname = "CompressedFileHandler" THEN "GzSize" ELSE "none")
+            /\ SetSite(IF fam = "GP" /\ mode # "info" /\ hname = "CompressedFileHandler" THEN "GzSize"
+                       \* the listing (fresh or cached) shows an entry the pristine directory does not have
+                       ELSE IF hname \in {"UMNDirHandler", "DirHandler"} /\ mode # "info"
+                               /\ PathOf(sel) \in DOMAIN Tree0[rq.hl]
+                               /\ e.n # Cardinality(Visible(TreeOf(rq.hl), PathOf(sel))) THEN "PycacheListed"
+                       ELSE "none")
             /\ fds' = fds \cup e.opens
             /\ fs' = IF mode = "info" THEN fs ELSE Leaves(hname, sel, rq.hl, fs)
             /\ pc' = "write" /\ UNCHANGED <<exc, log>>
@@ -612,13 +625,15 @@ CatchInProtocol ==                              \* except FileNotFound / except 
     /\ pc = "catchP"
     /\ LET fam == Fam(proto) m == Method(rq, proto) IN
        IF exc.fam = "FileNotFound"
-       THEN /\ todo' = ErrorPlan(fam, m, exc.msg, FALSE) /\ kind' = "error" /\ pc' = "write" /\ exc' = NoExc
+       THEN /\ todo' = Resize(ErrorPlan(fam, m, exc.msg, FALSE), IF wn = 0 THEN rq.nw ELSE 0)
+            /\ kind' = "error" /\ pc' = "write" /\ exc' = NoExc
             /\ SetSite(ErrSite(fam, m, exc.msg))
             /\ log' = log
        ELSE /\ log' = Append(log, Rec(proto, exc))                       \* GopherExceptions.log(e, self, None)
             /\ IF UsesStrerror(proto) \/ exc.nargs >= 2 \/ "ArgsIndex" \notin Defects
                THEN /\ todo' = ErrorPlan(fam, m, IF exc.nargs >= 2 \/ ~UsesStrerror(proto) THEN exc.msg ELSE "None", TRUE)
-                    /\ kind' = "error" /\ pc' = "write" /\ exc' = NoExc /\ SetSite("none")
+                    /\ kind' = "error" /\ pc' = "write" /\ exc' = NoExc
+                    /\ SetSite(IF ~UsesStrerror(proto) /\ exc.nargs < 2 THEN "ArgsIndex" ELSE "none")
                ELSE \* e.args[1] of a one-argument error: IndexError raised inside the except block
                     /\ exc' = Exc("IndexError", "other", 1, "tuple index out of range") /\ pc' = "catchS"
                     /\ SetSite("ArgsIndex") /\ UNCHANGED <<todo, kind>>
@@ -655,9 +670,14 @@ NoUnhandledV(v) == v.esc = "none" /\ \A i \in 1..Len(v.log) : v.log[i].fam \in {
 BoundedV(v, bound) == v.ops <= bound
 \* C20
 ContainedV(v) == v.esc = "none"
+\* With an injected failure every failing write() raises the injected class.  On a real socket the
+\* kernel chooses the class of each failing write (ECONNRESET once, EPIPE afterwards): there the own
+\* class of a record is whichever connection-failure class that write raised.
+ConnFailures == {"ConnectionResetError", "BrokenPipeError", "TimeoutError", "ConnectionAbortedError"}
+OwnOf(cls) == IF cls = "connection-failure" THEN ConnFailures ELSE {cls}
 OwnClassV(v, cls) ==
     v.mark >= 0 => /\ Len(v.log) > v.mark
-                   /\ \A i \in (v.mark + 1)..Len(v.log) : v.log[i].cls = cls /\ v.log[i].addr = Client
+                   /\ \A i \in (v.mark + 1)..Len(v.log) : v.log[i].cls \in OwnOf(cls) /\ v.log[i].addr = Client
 FilesClosedV(v) == v.nfds = 0
 
 C03Verdict(v, bound) ==
